@@ -89,7 +89,9 @@ TablesOK(t) == FailingPreds(t) = {}
 CONSTANTS NFn,            \* sequence: number of functions of each object
           Statuses,       \* set of statuses to choose from
           AddrPerms,      \* set of sequences: candidate address orders over all functions
-          Variant         \* "wild" | "keep-unloaded" | "keep-empty" | "no-sort" | "lose-row" | "cie-not-rewritten"
+          TailChoices,    \* set of sequences of BOOLEAN: which objects' .eh_frame end in leftover bytes
+                          \* (the 4-byte zero end marker of crtend.o-like objects)
+          Variant         \* "wild" | "keep-unloaded" | "keep-empty" | "no-sort" | "lose-row" | "cie-not-rewritten" | "advance-before-tail"
 
 NObj == Len(NFn)
 RECURSIVE FnsBefore(_)
@@ -99,14 +101,17 @@ NTotal == FnId(NObj, NFn[NObj])
 AllFns == 1..NTotal
 FnLen == 4
 
-VARIABLES status, cieMode, addrOf,     \* the scenario
+VARIABLES status, cieMode, addrOf, tails,   \* the scenario
           o, i,                        \* object, entry index within the object's .eh_frame
           out,                         \* output .eh_frame: sequence of [kind, fn, cie (output position of its CIE)]
           rows,                        \* hdr rows in emission order: [pc, fde (output position)]
           cieMap,                      \* input entry index of a CIE of the current object -> output position
+          base, lpos,                  \* the writer's running address (eh_frame_start_address, as a position) and
+                                       \* its output position inside the current object's contribution
           pc
 
-evars == <<status, cieMode, addrOf, o, i, out, rows, cieMap, pc>>
+evars == <<status, cieMode, addrOf, tails, o, i, out, rows, cieMap, base, lpos, pc>>
+scen == <<status, cieMode, addrOf, tails>>
 
 (* the entries of object ob's input .eh_frame *)
 Entries(ob) ==
@@ -120,52 +125,69 @@ EInit ==
     /\ status \in [AllFns -> Statuses]
     /\ cieMode \in [1..NObj -> {"shared", "private"}]
     /\ addrOf \in AddrPerms
+    /\ tails \in TailChoices
+    /\ base = 0 /\ lpos = 0
     /\ o = 1 /\ i = 1
     /\ out = <<>> /\ rows = <<>>
     /\ cieMap = <<>>      \* function from input index to output position, as a sequence of pairs
     /\ pc = "walk"
 
 Cur == Entries(o)[i]
-Advance ==
-    IF i < Len(Entries(o)) THEN /\ i' = i + 1 /\ o' = o /\ pc' = pc
-    ELSE IF o < NObj THEN /\ o' = o + 1 /\ i' = 1 /\ pc' = pc
-    ELSE /\ pc' = "sort" /\ UNCHANGED <<o, i>>
+InObj == pc = "walk" /\ i <= Len(Entries(o))
+(* where the writer believes the next entry goes, and where it really goes *)
+Believed == base + lpos + 1
+Actual == Len(out) + 1
 Lookup(m, k) == LET hits == {n \in 1..Len(m) : m[n][1] = k} IN
                 IF hits = {} THEN 0 ELSE m[CHOOSE n \in hits : \A n2 \in hits : n2 <= n][2]
 
 KeepCie ==
-    /\ pc = "walk" /\ Cur.kind = "cie"
-    /\ out' = Append(out, [kind |-> "cie", fn |-> 0, cie |-> 0])
-    /\ cieMap' = (IF i = 1 THEN <<>> ELSE cieMap) \o <<<<i, Len(out) + 1>>>>
-    /\ Advance
-    /\ UNCHANGED <<status, cieMode, addrOf, rows>>
+    /\ InObj /\ Cur.kind = "cie"
+    /\ out' = Append(out, [kind |-> "cie", fn |-> 0, cie |-> 0, skew |-> 0])
+    /\ cieMap' = (IF i = 1 THEN <<>> ELSE cieMap) \o <<<<i, Actual>>>>
+    /\ i' = i + 1 /\ lpos' = lpos + 1
+    /\ UNCHANGED <<scen, rows, o, base, pc>>
 
 ShouldKeep(fn) ==
     \/ status[fn] = "kept"
     \/ Variant = "keep-empty" /\ status[fn] = "empty"
     \/ Variant = "keep-unloaded" /\ status[fn] \in {"gc", "comdat"}
 
+(* The pc-begin field is pc-relative and is computed with the believed address of the FDE; read back
+   at the FDE's real address it is off by (Actual - Believed).  The CIE pointer is a distance inside
+   the object's contribution, so it is unaffected. *)
 KeepFde ==
-    /\ pc = "walk" /\ Cur.kind = "fde" /\ ShouldKeep(Cur.fn)
+    /\ InObj /\ Cur.kind = "fde" /\ ShouldKeep(Cur.fn)
     /\ out' = Append(out, [kind |-> "fde", fn |-> Cur.fn,
-                           cie |-> IF Variant = "cie-not-rewritten" THEN Cur.cie ELSE Lookup(cieMap, Cur.cie)])
+                           cie |-> IF Variant = "cie-not-rewritten" THEN Cur.cie ELSE Lookup(cieMap, Cur.cie),
+                           skew |-> Actual - Believed])
     /\ rows' = IF Variant = "lose-row" /\ Len(rows) = 1 THEN rows
-               ELSE Append(rows, [pc |-> addrOf[Cur.fn], fde |-> Len(out) + 1])
-    /\ Advance
-    /\ UNCHANGED <<status, cieMode, addrOf, cieMap>>
+               ELSE Append(rows, [pc |-> addrOf[Cur.fn], fde |-> Believed])
+    /\ i' = i + 1 /\ lpos' = lpos + 1
+    /\ UNCHANGED <<scen, cieMap, o, base, pc>>
 
 DropFde ==
-    /\ pc = "walk" /\ Cur.kind = "fde" /\ ~ShouldKeep(Cur.fn)
-    /\ Advance
-    /\ UNCHANGED <<status, cieMode, addrOf, out, rows, cieMap>>
+    /\ InObj /\ Cur.kind = "fde" /\ ~ShouldKeep(Cur.fn)
+    /\ i' = i + 1
+    /\ UNCHANGED <<scen, out, rows, cieMap, o, base, lpos, pc>>
+
+(* End of an object's .eh_frame: copy the leftover bytes (if any) and advance the running address by
+   everything that was written for this object. *)
+EndObject ==
+    /\ pc = "walk" /\ i > Len(Entries(o))
+    /\ out' = IF tails[o] THEN Append(out, [kind |-> "tail", fn |-> 0, cie |-> 0, skew |-> 0]) ELSE out
+    /\ base' = base + lpos + (IF tails[o] /\ Variant # "advance-before-tail" THEN 1 ELSE 0)
+    /\ lpos' = 0
+    /\ IF o < NObj THEN o' = o + 1 /\ i' = 1 /\ pc' = pc
+                   ELSE pc' = "sort" /\ UNCHANGED <<o, i>>
+    /\ UNCHANGED <<scen, rows, cieMap>>
 
 SortRows ==
     /\ pc = "sort"
     /\ rows' = IF Variant = "no-sort" THEN rows ELSE SortSeq(rows, LAMBDA a, b : a.pc < b.pc)
     /\ pc' = "done"
-    /\ UNCHANGED <<status, cieMode, addrOf, o, i, out, cieMap>>
+    /\ UNCHANGED <<scen, o, i, out, cieMap, base, lpos>>
 
-ENext == KeepCie \/ KeepFde \/ DropFde \/ SortRows
+ENext == KeepCie \/ KeepFde \/ DropFde \/ EndObject \/ SortRows
 ESpec == EInit /\ [][ENext]_evars
 
 Done == pc = "done"
@@ -175,7 +197,7 @@ Result ==
     LET fdePos == SelectSeq([n \in 1..Len(out) |-> n], LAMBDA n : out[n].kind = "fde")
         ciePos == SelectSeq([n \in 1..Len(out) |-> n], LAMBDA n : out[n].kind = "cie")
     IN  [hdr |-> TRUE, closed |-> TRUE, fmt |-> <<>>, fdeCount |-> Len(rows), rows |-> rows,
-         fdes |-> [n \in 1..Len(fdePos) |-> [addr |-> fdePos[n], pc |-> addrOf[out[fdePos[n]].fn], len |-> FnLen,
+         fdes |-> [n \in 1..Len(fdePos) |-> [addr |-> fdePos[n], pc |-> addrOf[out[fdePos[n]].fn] + out[fdePos[n]].skew, len |-> FnLen,
                                              cie |-> out[fdePos[n]].cie]],
          cies |-> ciePos,
          funcs |-> [f \in AllFns |-> [id |-> f, kept |-> status[f] \in {"kept", "empty"}, addr |-> addrOf[f],
